@@ -363,9 +363,39 @@ def msg_cases(rng, tier):
     return cases
 
 
+STATS_ONLY = ["packetTotalCount", "packetDeltaCount", "octetTotalCount", "octetDeltaCount", "reversePacketTotalCount",
+              "reversePacketDeltaCount", "reverseOctetTotalCount", "reverseOctetDeltaCount", "tcpState", "flowEndReason",
+              "flowEndSeconds", "flowStartSeconds"]
+
+
+def refused_second_cases(rng, tier):
+    """the record of the SECOND node is one the statistics update refuses (its template lacks a counter, tcpState, ...):
+    both sides have been seen all the same - correlation comes before the statistics - so the flow is complete: ready,
+    filled, every non-empty correlate field of either side present; it must not be retried and dropped. Outside the
+    model (it has no refused records): judged by the C07 tracker only."""
+    cases = []
+    for name in STATS_ONLY:
+        for first in "SD":
+            for extra_ok in (False, True):
+                src = raw(1, 1, "podA", "", extra=FULL)
+                dst = raw(1, 2, "", "podB", ingress=1, extra=FULL2)
+                a, b = (src, dst) if first == "S" else (dst, src)
+                recs = [a, b + " omit=" + name]
+                if extra_ok:            # a further, ordinary record of the second node afterwards
+                    recs.append(raw(1, 3, "", "podB", ingress=1, extra=FULL2) if first == "S" else raw(1, 3, "podA", "", extra=FULL))
+                ops = ["agg new %d %d" % (A, I)]
+                for r in recs:
+                    ops += [r, "agg dump"]
+                for _ in range(3):
+                    ops += ["agg adv %d" % A, "agg scan - 0", "agg dump"]
+                cases.append(Case(ops, "refused-second", True, False, True))
+    return cases
+
+
 def run(ctx):
     rng = random.Random(ctx.seed * 1000003 + 7)
     cases = gen_cases(rng, ctx.tier)
+    cases += refused_second_cases(random.Random(ctx.seed * 1000003 + 708), ctx.tier)
     # own stream of random numbers: the histories above are the ones the seed generated before
     cases += ip16_cases(random.Random(ctx.seed * 1000003 + 707), ctx.tier)
     AG.with_cfg(cases)
